@@ -149,14 +149,24 @@ def norm(s):
     return " ".join(s.split())
 
 
+# process time zones the checks run under — never UTC (a result that leaks the process zone is
+# invisible there); most have daylight-saving rules, two are far from UTC on either side
+PROCESS_ZONES = ["America/New_York", "Asia/Tokyo", "America/Adak", "Pacific/Kiritimati", "Europe/London",
+                 "Australia/Lord_Howe", "America/Sao_Paulo"]
+
+
 def stage_b(prop, cfg, tier, seed, log):
     """correspondence for the groups the property's theorems rest on"""
     import zones
     res = {"ok": True, "groups": {}, "cases": 0, "distinct": 0, "max_ulp": 0,
            "mismatches": [], "special": [], "samples": [], "error_kinds": {}, "tags": {}, "functions": {}}
-    for spec in cfg.get("groups", []):
+    for gi, spec in enumerate(cfg.get("groups", [])):
         modname, gname = spec["module"], spec["group"]
         n = spec["thorough"] if tier == "thorough" else spec["quick"]
+        # every group under another process zone
+        os.environ["TZ"] = PROCESS_ZONES[(seed + gi) % len(PROCESS_ZONES)]
+        time.tzset()
+        res.setdefault("process_zones", []).append(os.environ["TZ"])
         mod = importlib.import_module(modname)
         gen = mod.GROUPS[gname]
         rng = random.Random((seed * 1000003) ^ hash_str(gname))
@@ -317,7 +327,7 @@ def main():
         return search.replay(prop, args.replay)
 
     # the process time zone must not matter to any answer: run under a non-UTC TZ chosen by the seed
-    tz_env = ["Asia/Tokyo", "America/Adak", "Pacific/Kiritimati", "Europe/London", "UTC"][seed % 5]
+    tz_env = PROCESS_ZONES[seed % len(PROCESS_ZONES)]
     os.environ["TZ"] = tz_env
     time.tzset()
     t0 = time.time()
@@ -413,7 +423,7 @@ def main():
             "unproved_clauses": cfg.get("unproved", []),
         },
         "assumptions": cfg.get("assumes", []) + registry.COMMON_ASSUMPTIONS
-        + ["process TZ for this run: " + tz_env],
+        + ["process TZ, one per correspondence group: " + ", ".join(b.get("process_zones", [tz_env]))],
         "wall_s": round(wall, 2),
         "violations": len(violations),
     }
